@@ -21,6 +21,14 @@ std::vector<std::string> keys_for(std::initializer_list<const char*> grammars, b
     return r;
 }
 
+// seeded random grammars of the thorough tier (fleet/randgram.py): present only when the fleet was generated with them
+std::vector<std::string> random_grammar_keys()
+{
+    std::vector<std::string> r;
+    for (const FleetEntry& e : fleet()) if (e.grammar[0] == 'X') r.push_back(e.key);
+    return r;
+}
+
 std::vector<std::string> regex_keys()
 {
     std::vector<std::string> r;
